@@ -180,7 +180,11 @@ func ruleAugOnce(c *Ctx) []Obligation {
 		}
 	}
 	con = "an augment whose target was found is applied or reported, exactly once"
-	merges := c.callsTo(aug, merge)
+	// the merge may sit in a private helper (target.graft(a)): it then happens where the helper is called
+	var merges []ssa.Instruction
+	for _, mc := range c.callsToDeep(aug, merge) {
+		merges = append(merges, liftAll(mc, aug, 0)...)
+	}
 	okMerge := len(merges) == 1
 	for _, mc := range merges {
 		if !isNilGuard(mc.Block(), false) {
@@ -665,8 +669,11 @@ func ruleProcPhases(c *Ctx) []Obligation {
 	// once per module name: test-and-set on a visited map around the applier
 	con = "each module's deviations are applied once (visited-name test-and-set)"
 	okk = false
-	for _, d := range devs {
-		eachInstr(proc, func(in ssa.Instruction) {
+	// the applier call itself may sit in a helper of Process together with its visited set
+	var devCalls []ssa.CallInstruction
+	devCalls = append(devCalls, c.callsInDeep(proc, callee(dev))...)
+	for _, d := range devCalls {
+		c.eachInstrDeep(proc, func(in ssa.Instruction) {
 			mu, okm := in.(*ssa.MapUpdate)
 			if !okm || !isSetInsert(mu) {
 				return
@@ -674,7 +681,7 @@ func ruleProcPhases(c *Ctx) []Obligation {
 			if _, isMake := mu.Map.(*ssa.MakeMap); !isMake {
 				return
 			}
-			eachInstr(proc, func(in2 ssa.Instruction) {
+			c.eachInstrDeep(proc, func(in2 ssa.Instruction) {
 				l, okl := in2.(*ssa.Lookup)
 				if okl && l.X == mu.Map && sameKey(l.Index, mu.Key) && lookupAbsentGuards(l, d) && (dominates(d, mu) || dominates(mu, d)) {
 					okk = true
@@ -727,7 +734,7 @@ func ruleNsStamp(c *Ctx) []Obligation {
 			continue
 		}
 		a := args[idx]
-		caller := e.Caller.Func
+		caller := c.inlineRoot(e.Caller.Func) // a private helper of the applier counts as the applier
 		con := fmt.Sprintf("%s → %s: namespace argument", c.FnName(caller), c.FnName(merge))
 		pos := c.InstrPos(e.Site)
 		if isNilConst(a) {
